@@ -264,3 +264,8 @@ func TestReplayA(t *testing.T) { core.Replay(t, map[string]func(CaseA) core.Resu
 func TestReplayB(t *testing.T) { core.Replay(t, map[string]func(CaseB) core.Result{"b": RunB}) }
 func TestReplayD(t *testing.T) { core.Replay(t, map[string]func(CaseD) core.Result{"d": RunD}) }
 func TestReplayC(t *testing.T) { core.Replay(t, map[string]func(CaseC) core.Result{"c": RunC}) }
+
+// FuzzSegmentation: coverage-guided search over byte streams x segmentations (thorough tier).
+func FuzzSegmentation(f *testing.F) {
+	core.FuzzProp(f, "a", genA, RunA)
+}
